@@ -103,7 +103,7 @@ func VerifC07Untouched() {
 	deco := verifChoice("decoratedNode", c07Nodes)
 	v := verifStrN("v", 1, "49")
 	i := 0
-	which := verifChoice("update", 15)
+	which := verifChoice("update", 19)
 	c07KeyS = "s"
 	var u c07Update
 	// positions: root.Content = [ka, a, kc, c, ks, s]; a.Content = [kb, b]; c.Content = [c0, c1]
@@ -145,6 +145,16 @@ func VerifC07Untouched() {
 	case 14: // a key of an element that does not exist yet
 		i = verifConcreteInt(verifIntRange("i", 2, 3), 2, 3)
 		u = c07Update{name: "create-key-in-new-element", text: ".c[7770001].k = 7770009", skipAfter: [][]int{{3, 2}, {3, 3}}}
+	// a variable binding inside a scope that only reads (the right-hand side of an assignment, a select condition, the
+	// selection of del): what the body traverses on the way - a path that is not there - is not created
+	case 15:
+		u = c07Update{name: "assign-looked-up-default", text: ".a.b = (.s as $k | .missing.deep // 7770009)", holeBefore: [][]int{{1, 1}}, holeAfter: [][]int{{1, 1}}}
+	case 16:
+		u = c07Update{name: "assign-to-selected-by-lookup", text: "(.c[] | select(. as $e | parent | parent | .nope.x // true)) = 7770009", holeBefore: [][]int{{3, 0}, {3, 1}}, holeAfter: [][]int{{3, 0}, {3, 1}}}
+	case 17:
+		u = c07Update{name: "delete-selected-by-lookup-nothing-matches", text: "del(.c[] | select(. as $e | parent | parent | .nope | . == \"none\"))"}
+	case 18:
+		u = c07Update{name: "append-looked-up-default", text: ".c += [(.a.b as $k | .zz.yy // 7770009)]", skipAfter: [][]int{{3, 2}}}
 	}
 	d := c07DrawDeco()
 	doc := c07Doc(x, deco, d)
